@@ -41,6 +41,17 @@ TUvs ==
             a == Lookup14(Ev.records, q.c, q.sel)
         IN q.kind = a.kind /\ (a.kind = "glyph" => q.g = a.g)
 
+\* a subtable of a real font: what the reader answers at each probe is what the specification's lookup gives on the
+\* same arrays (tables that are not well formed, and format 4 indices that leave the table, are not judged)
+TCmapRead ==
+  /\ IsEvent("cmap_read")
+  /\ Ev.enum_ok
+  /\ (Ev.fmt = 4 /\ WellFormed4(Ev.f4)) =>
+        \A i \in DOMAIN Ev.probes :
+           LET a == Lookup4(Ev.f4, Ev.probes[i][1]) IN a >= 0 => Ev.probes[i][2] = a
+  /\ (Ev.fmt = 12 /\ WellFormed12(Ev.f12)) =>
+        \A i \in DOMAIN Ev.probes : Ev.probes[i][2] = Lookup12(Ev.f12, Ev.probes[i][1])
+
 TInit == l = 1
-TraceSpec == TInit /\ [][TCmap \/ TUvs]_l
+TraceSpec == TInit /\ [][TCmap \/ TUvs \/ TCmapRead]_l
 =============================================================================
